@@ -25,6 +25,12 @@ func CallNamed(names ...string) CallMatch {
 // errSource returns the call whose error result v is (directly, or via a phi
 // all of whose non-nil operands come from calls matching m).
 func errSources(v ssa.Value) []*ssa.Call {
+	// the result of a helper traversed on this path is the operand it returned
+	if op, _, ok := boundResult(v); ok && op != v {
+		if inner := errSources(op); len(inner) > 0 {
+			return inner
+		}
+	}
 	switch x := v.(type) {
 	case *ssa.Extract, *ssa.Call:
 		c, idx := CallResult(x)
